@@ -1,45 +1,60 @@
 ------------------------- MODULE Trace_Vectorizer -------------------------
 (***************************************************************************)
-(* C17 trace validation.  A case is one corpus + settings; its events are  *)
-(* what the real CountVectorizer / TfIdfVectorizer returned:               *)
+(* C17 trace validation.  Events are what the real CountVectorizer /       *)
+(* TfIdfVectorizer returned:                                               *)
 (*   fit(api=count)   vocabulary(), nentries()                             *)
-(*   count(on)        dense transform() of the training / unseen corpus    *)
+(*   count(on)        dense transform() of a corpus                        *)
 (*   fit(api=tfidf)   one fit per idf method (own column order)            *)
 (*   tfidf(on)        dense transform(), entries as round(v * 10^4)        *)
 (*   idf              TfIdfMethod::compute_idf(n, df) (kind "idf")         *)
+(*   check            ParamGuard::check_ref of a builder (kind "hist")     *)
+(* kind "vec": one fresh builder with settings inp.st fitted on inp.train. *)
+(* kind "hist": a HISTORY -- a builder is used once with settings inp.st1  *)
+(* (check_ref, or a fit on inp.train1), then re-configured through its     *)
+(* setters (same value or clone) to inp.st and fitted on inp.train; with a *)
+(* clone the original is fitted on inp.train once more.  Every fit event   *)
+(* names the settings (cfg "s1"/"s2") and the corpus it was made with; the *)
+(* specification keeps the settings *in force* for each fitted vectoriser  *)
+(* as state and judges every fit exactly like that of a fresh builder with *)
+(* those settings -- whatever the builder went through before.             *)
 (* Every event is checked with the relations of Vectorizer.tla (part 1):   *)
 (* VocabOk, CountOk, TfIdfOk, IdfS.  The column order is taken from the    *)
 (* implementation (column j refers to vocabulary()[j]); the vocabulary as  *)
 (* a set, every count and every tf-idf entry are recomputed by TLC from    *)
 (* the code points of the case.                                            *)
 (*                                                                         *)
-(* Named deviation (known finding, enabled only through Devs):             *)
-(*   "min_df_truncated"  filter_vocabulary truncates min_df * n_documents  *)
-(*   to an integer, so entries whose relative document frequency is below  *)
-(*   min_df are kept whenever min_df * n is not an integer.  The deviation *)
-(*   models exactly that: df >= floor(min_df * n).                         *)
+(* Named deviations (known findings, enabled only through Devs):           *)
+(*   "min_df_truncated"  (repaired in a72e9b0) filter_vocabulary truncated *)
+(*   min_df * n_documents: df >= floor(min_df * n).                        *)
+(*   "tokenizer_fn_sticky"  CountVectorizerParams::tokenizer(Regex(..))    *)
+(*   does not clear a function tokenizer set earlier, and the function     *)
+(*   wins: a builder that ever had Tokenizer::Function keeps tokenising    *)
+(*   with it.  The deviation models exactly that: settings s2 with the     *)
+(*   tokeniser of s1 when s1 used the function tokeniser.                  *)
 (***************************************************************************)
 EXTENDS Vectorizer, TraceIO
 
 CONSTANT Devs
 
 VARIABLES c, e,
-          cvoc,        \* vocabulary()[..] of the fitted count vectoriser
-          tvoc, tmeth, \* vocabulary and method of the current tf-idf vectoriser
-          nfit,        \* number of tf-idf fits seen
-          seen,        \* tags of the observations checked so far
-          used         \* deviations needed so far
+          cvoc, cset,          \* count vectoriser: vocabulary()[..], settings in force
+          tvoc, tset, tmeth,   \* current tf-idf vectoriser: vocabulary, settings in force, method
+          ctag, ttag,          \* configuration tag ("s1"/"s2") of the two fitted vectorisers
+          nfit,                \* number of tf-idf fits seen
+          seen,                \* tags of the observations checked so far
+          used                 \* deviations needed so far
 
-tvars == <<c, e, cvoc, tvoc, tmeth, nfit, seen, used>>
+tvars == <<c, e, cvoc, cset, tvoc, tset, tmeth, ctag, ttag, nfit, seen, used>>
 
 Case == Rec[c]
 In   == Case.inp
 Ev   == Case.ev[e]
-Sett == In.st
+IsHist == Case.kind = "hist"
 
 TraceInit ==
   /\ c \in 1..Len(Rec) /\ e = 1
-  /\ cvoc = <<>> /\ tvoc = <<>> /\ tmeth = "" /\ nfit = 0 /\ seen = {} /\ used = {}
+  /\ cvoc = <<>> /\ cset = <<>> /\ tvoc = <<>> /\ tset = <<>> /\ tmeth = ""
+  /\ ctag = "" /\ ttag = "" /\ nfit = 0 /\ seen = {} /\ used = {}
   \* the design-model variables are not used during trace validation
   /\ st = <<>> /\ corpus = <<>> /\ test = <<>> /\ pc = "trace" /\ i = 0 /\ dfmap = <<>> /\ kept = {}
   /\ voc = <<>> /\ colmap = <<>> /\ rows = <<>>
@@ -48,100 +63,127 @@ HasEv(name) == e <= Len(Case.ev) /\ Ev.ev = name
 Adv == e' = e + 1 /\ UNCHANGED <<c, vars>>
 
 InAlphabet(s) == \A p \in 1..Len(s) : s[p] \in Alphabet
+DocsIn(docs) == \A d \in 1..Len(docs) : InAlphabet(docs[d])
+SettIn(stt) == /\ DocsIn(stt.stop) /\ DocsIn(stt.vocab)
+               /\ stt.tok \in TokKinds /\ 1 <= stt.nmin /\ stt.nmin <= stt.nmax
 InputsOk ==
-  /\ \A d \in 1..Len(In.train) : InAlphabet(In.train[d])
-  /\ \A d \in 1..Len(In.test) : InAlphabet(In.test[d])
-  /\ \A d \in 1..Len(Sett.stop) : InAlphabet(Sett.stop[d])
-  /\ \A d \in 1..Len(Sett.vocab) : InAlphabet(Sett.vocab[d])
-  /\ Sett.tok \in TokKinds /\ 1 <= Sett.nmin /\ Sett.nmin <= Sett.nmax
+  /\ DocsIn(In.train) /\ DocsIn(In.test) /\ SettIn(In.st)
+  /\ IsHist => DocsIn(In.train1) /\ SettIn(In.st1)
   /\ \A q \in 1..Len(In.methods) : In.methods[q] \in Methods
 
-DocsOf(on) == IF on = "train" THEN In.train ELSE In.test
-
-\* the deviation: what filter_vocabulary computes (floor of min_df * n ; the upper bound is a floor in both)
-SettTrunc == [Sett EXCEPT !.dfmin = <<(Sett.dfmin[1] * Len(In.train)) \div Sett.dfmin[2], Len(In.train)>>]
-VocabStrict(v) == VocabOk(Sett, TokLists(Sett, In.train), v)
-VocabTrunc(v)  == Len(In.train) > 0 /\ VocabOk(SettTrunc, TokLists(Sett, In.train), v)
+\* corpus by name; settings and training corpus a fit event was made with
+Corp(name) == CASE name = "train" -> In.train [] name = "test" -> In.test [] name = "train1" -> In.train1
+CorpNames == IF IsHist THEN {"train", "test", "train1"} ELSE {"train", "test"}
+EvCfg    == IF IsHist THEN Ev.cfg ELSE "s2"
+EvCorpus == IF IsHist THEN Ev.corpus ELSE "train"
+EvTagsOk == IsHist => Ev.cfg \in {"s1", "s2"} /\ Ev.corpus \in {"train", "train1"}
+SettOf(cfg) == IF cfg = "s1" THEN In.st1 ELSE In.st
 
 \* Every event is handled by exactly one action, which either explains it (and advances) or reports the
 \* false clause and abandons the case (no OK line => the case is rejected).  The relation is a function of
 \* the recorded values, so no search is needed; ties and orders are left open inside VocabOk / TopK.
 Reject(what) ==
   /\ Fail(Case.id, <<e, Ev.ev, what>>)
-  /\ e' = Len(Case.ev) + 2 /\ UNCHANGED <<c, vars, cvoc, tvoc, tmeth, nfit, seen, used>>
+  /\ e' = Len(Case.ev) + 2 /\ UNCHANGED <<c, vars, cvoc, cset, tvoc, tset, tmeth, ctag, ttag, nfit, seen, used>>
 
-\* which deviations (if any) are needed to explain the fitted vocabulary v; "bad" if none does
-VocabVerdict(v) ==
-  IF VocabStrict(v) THEN "ok"
-  ELSE IF "min_df_truncated" \in Devs /\ VocabTrunc(v) THEN "min_df_truncated"
+\* the deviations: settings that describe what the defective code computes
+Trunc(stt, docs) == [stt EXCEPT !.dfmin = <<(stt.dfmin[1] * Len(docs)) \div stt.dfmin[2], Len(docs)>>]
+StickyApplies(cfg) == IsHist /\ cfg = "s2" /\ In.st1.tok = "fn_ws" /\ In.st.tok # "fn_ws"
+Sticky(stt) == [stt EXCEPT !.tok = "fn_ws"]
+
+\* which deviation (if any) is needed to explain the fitted vocabulary v; "bad" if none does
+VocabVerdict(stt, cfg, docs, v) ==
+  IF VocabOk(stt, TokLists(stt, docs), v) THEN "ok"
+  ELSE IF "min_df_truncated" \in Devs /\ Len(docs) > 0 /\ VocabOk(Trunc(stt, docs), TokLists(stt, docs), v)
+       THEN "min_df_truncated"
+  ELSE IF "tokenizer_fn_sticky" \in Devs /\ StickyApplies(cfg) /\ VocabOk(Sticky(stt), TokLists(Sticky(stt), docs), v)
+       THEN "tokenizer_fn_sticky"
   ELSE "bad"
+\* settings that govern the following transforms of that vectoriser
+InForce(stt, vd) == IF vd = "tokenizer_fn_sticky" THEN Sticky(stt) ELSE stt
 
-FitPre == InputsOk /\ Ev.ok /\ Ev.nentries = Len(Ev.vocab)
-FitWhy == IF ~InputsOk THEN "input outside the modelled alphabet"
+FitPre == InputsOk /\ EvTagsOk /\ Ev.ok /\ Ev.nentries = Len(Ev.vocab)
+FitWhy(stt) ==
+          IF ~InputsOk THEN "input outside the modelled alphabet"
+          ELSE IF ~EvTagsOk THEN "unknown configuration tag"
           ELSE IF ~Ev.ok THEN "fit returned an error"
           ELSE IF Ev.nentries # Len(Ev.vocab) THEN "nentries # vocabulary length"
           ELSE IF ~NoDup(Ev.vocab) THEN "vocabulary has duplicates"
-          ELSE IF Sett.fixed THEN "vocabulary differs from the given one"
-          ELSE IF Sett.cap < 0 THEN "vocabulary is not the admitted set"
+          ELSE IF stt.fixed THEN "vocabulary differs from the given one"
+          ELSE IF stt.cap < 0 THEN "vocabulary is not the admitted set"
           ELSE "vocabulary not most-frequent admitted"
 \* details for a human (work/*.out); never parsed
-FitDetail(v) ==
-  LET ff == FitFacts(Sett, TokLists(Sett, In.train)) IN
-  PrintT(<<"DETAIL", Case.id, "admitted (entry, df)", {<<g, ff.df[g]>> : g \in ff.adm}, "observed", Range(v)>>)
+FitDetail(stt, docs, v) ==
+  LET ff == FitFacts(stt, TokLists(stt, docs)) IN
+  PrintT(<<"DETAIL", Case.id, EvCfg, "admitted (entry, df)", {<<g, ff.df[g]>> : g \in ff.adm}, "observed", Range(v)>>)
 
 \* informational (evidence only): which reading of "most frequent" explains a capped vocabulary
-CapNote(v) ==
-  LET ff == FitFacts(Sett, TokLists(Sett, In.train)) IN
-  PrintT(<<"CAPREAD", Case.id, CapOkDf(Sett, ff, Range(v)), CapOkTf(Sett, ff, Range(v))>>)
+CapNote(stt, docs, v) ==
+  LET ff == FitFacts(stt, TokLists(stt, docs)) IN
+  PrintT(<<"CAPREAD", Case.id, CapOkDf(stt, ff, Range(v)), CapOkTf(stt, ff, Range(v))>>)
 
 TFitCount ==
   /\ HasEv("fit") /\ Ev.api = "count"
-  /\ LET vd == IF FitPre THEN VocabVerdict(Ev.vocab) ELSE "bad" IN
-     IF vd = "bad" THEN (FitPre => FitDetail(Ev.vocab)) /\ Reject(FitWhy)
-     ELSE /\ cvoc' = Ev.vocab
+  /\ LET stt  == SettOf(EvCfg)
+         docs == Corp(EvCorpus)
+         vd   == IF FitPre THEN VocabVerdict(stt, EvCfg, docs, Ev.vocab) ELSE "bad" IN
+     IF vd = "bad" THEN (FitPre => FitDetail(stt, docs, Ev.vocab)) /\ Reject(FitWhy(IF InputsOk /\ EvTagsOk THEN stt ELSE In.st))
+     ELSE /\ cvoc' = Ev.vocab /\ cset' = InForce(stt, vd) /\ ctag' = EvCfg
           /\ used' = IF vd = "ok" THEN used ELSE used \cup {vd}
-          /\ (vd = "ok" /\ Sett.cap >= 0 /\ ~Sett.fixed) => CapNote(Ev.vocab)
-          /\ seen' = seen \cup {"fit:count"}
-          /\ Adv /\ UNCHANGED <<tvoc, tmeth, nfit>>
+          /\ (vd = "ok" /\ ~IsHist /\ stt.cap >= 0 /\ ~stt.fixed) => CapNote(stt, docs, Ev.vocab)
+          /\ seen' = seen \cup {"fit:count:" \o EvCfg \o ":" \o EvCorpus}
+          /\ Adv /\ UNCHANGED <<tvoc, tset, tmeth, ttag, nfit>>
 
 CountWhy(v, docs, m) ==
   IF Len(m) # Len(docs) THEN "row count"
   ELSE IF \E d \in 1..Len(m) : Len(m[d]) # Len(v) THEN "column count"
   ELSE "count differs from the recount"
-CountDetail(v, docs, m) ==
+CountDetail(stt, v, docs, m) ==
   Len(m) = Len(docs) /\ (\A d \in 1..Len(m) : Len(m[d]) = Len(v)) =>
     PrintT(<<"DETAIL", Case.id, "(doc, column, entry, observed, recount)",
-             {<<d, j, v[j], m[d][j], Count(DocToks(Sett, docs[d]), Sett.nmin, Sett.nmax, v[j])>> :
+             {<<d, j, v[j], m[d][j], Count(DocToks(stt, docs[d]), stt.nmin, stt.nmax, v[j])>> :
                  <<d, j>> \in {x \in (1..Len(docs)) \X (1..Len(v)) :
-                                m[x[1]][x[2]] # Count(DocToks(Sett, docs[x[1]]), Sett.nmin, Sett.nmax, v[x[2]])}}>>)
+                                m[x[1]][x[2]] # Count(DocToks(stt, docs[x[1]]), stt.nmin, stt.nmax, v[x[2]])}}>>)
 
 TCount ==
   /\ HasEv("count")
-  /\ IF ~("fit:count" \in seen /\ Ev.ok /\ Ev.on \in {"train", "test"}) THEN Reject("transform failed or came before fit")
-     ELSE IF ~(Ev.rows = Len(DocsOf(Ev.on)) /\ Ev.cols = Len(cvoc)) THEN Reject("matrix shape")
-     ELSE IF ~CountOk(Sett, cvoc, DocsOf(Ev.on), Ev.m)
-          THEN CountDetail(cvoc, DocsOf(Ev.on), Ev.m) /\ Reject(CountWhy(cvoc, DocsOf(Ev.on), Ev.m))
-     ELSE /\ seen' = seen \cup {"count:" \o Ev.on}
-          /\ Adv /\ UNCHANGED <<cvoc, tvoc, tmeth, nfit, used>>
+  /\ IF ~(ctag # "" /\ Ev.ok /\ Ev.on \in CorpNames) THEN Reject("transform failed or came before fit")
+     ELSE IF ~(Ev.rows = Len(Corp(Ev.on)) /\ Ev.cols = Len(cvoc)) THEN Reject("matrix shape")
+     ELSE IF ~CountOk(cset, cvoc, Corp(Ev.on), Ev.m)
+          THEN CountDetail(cset, cvoc, Corp(Ev.on), Ev.m) /\ Reject(CountWhy(cvoc, Corp(Ev.on), Ev.m))
+     ELSE /\ seen' = seen \cup {"count:" \o ctag \o ":" \o Ev.on}
+          /\ Adv /\ UNCHANGED <<cvoc, cset, tvoc, tset, tmeth, ctag, ttag, nfit, used>>
 
 TFitTfidf ==
   /\ HasEv("fit") /\ Ev.api = "tfidf"
-  /\ LET pre == FitPre /\ nfit + 1 <= Len(In.methods) /\ Ev.method = In.methods[nfit + 1]   \* the method that was asked for
-         vd  == IF pre THEN VocabVerdict(Ev.vocab) ELSE "bad" IN
-     IF vd = "bad" THEN (pre => FitDetail(Ev.vocab)) /\ Reject(IF FitPre /\ ~pre THEN "idf method # requested one" ELSE FitWhy)
-     ELSE /\ tvoc' = Ev.vocab /\ tmeth' = Ev.method /\ nfit' = nfit + 1
+  /\ LET stt  == SettOf(EvCfg)
+         docs == Corp(EvCorpus)
+         \* the method that was asked for (vec: the next of inp.methods ; hist: the builder default)
+         pre  == FitPre /\ IF IsHist THEN Ev.method = "smooth"
+                           ELSE nfit + 1 <= Len(In.methods) /\ Ev.method = In.methods[nfit + 1]
+         vd   == IF pre THEN VocabVerdict(stt, EvCfg, docs, Ev.vocab) ELSE "bad" IN
+     IF vd = "bad" THEN (pre => FitDetail(stt, docs, Ev.vocab))
+                        /\ Reject(IF FitPre /\ ~pre THEN "idf method # requested one" ELSE FitWhy(IF InputsOk /\ EvTagsOk THEN stt ELSE In.st))
+     ELSE /\ tvoc' = Ev.vocab /\ tset' = InForce(stt, vd) /\ tmeth' = Ev.method /\ ttag' = EvCfg /\ nfit' = nfit + 1
           /\ used' = IF vd = "ok" THEN used ELSE used \cup {vd}
-          /\ seen' = seen \cup {"fit:" \o Ev.method}
-          /\ Adv /\ UNCHANGED <<cvoc>>
+          /\ seen' = seen \cup {"fit:" \o Ev.method \o ":" \o EvCfg \o ":" \o EvCorpus}
+          /\ Adv /\ UNCHANGED <<cvoc, cset, ctag>>
 
 TTfidf ==
   /\ HasEv("tfidf")
-  /\ IF ~(nfit >= 1 /\ Ev.ok /\ Ev.method = tmeth /\ Ev.on \in {"train", "test"}) THEN Reject("transform failed or came before fit")
-     ELSE IF ~(Ev.rows = Len(DocsOf(Ev.on)) /\ Ev.cols = Len(tvoc)) THEN Reject("matrix shape")
+  /\ IF ~(nfit >= 1 /\ Ev.ok /\ Ev.method = tmeth /\ Ev.on \in CorpNames) THEN Reject("transform failed or came before fit")
+     ELSE IF ~(Ev.rows = Len(Corp(Ev.on)) /\ Ev.cols = Len(tvoc)) THEN Reject("matrix shape")
      ELSE IF ~Ev.finite THEN Reject("non-finite tf-idf entry")
-     ELSE IF ~TfIdfOk(Sett, tmeth, tvoc, DocsOf(Ev.on), Ev.m) THEN Reject("tf-idf entry # count * idf")
-     ELSE /\ seen' = seen \cup {"tfidf:" \o tmeth \o ":" \o Ev.on}
-          /\ Adv /\ UNCHANGED <<cvoc, tvoc, tmeth, nfit, used>>
+     ELSE IF ~TfIdfOk(tset, tmeth, tvoc, Corp(Ev.on), Ev.m) THEN Reject("tf-idf entry # count * idf")
+     ELSE /\ seen' = seen \cup {"tfidf:" \o tmeth \o ":" \o ttag \o ":" \o Ev.on}
+          /\ Adv /\ UNCHANGED <<cvoc, cset, tvoc, tset, tmeth, ctag, ttag, nfit, used>>
+
+\* hist: the first use of the builder may be a bare check_ref; valid settings must be accepted
+TCheck ==
+  /\ HasEv("check")
+  /\ IF ~(IsHist /\ Ev.ok) THEN Reject("check_ref rejected valid settings")
+     ELSE /\ seen' = seen \cup {"check"}
+          /\ Adv /\ UNCHANGED <<cvoc, cset, tvoc, tset, tmeth, ctag, ttag, nfit, used>>
 
 \* compute_idf alone; "nonsmooth" with df = 0 is documented as a division by zero (left unspecified)
 IdfOk ==
@@ -155,31 +197,41 @@ TIdf ==
   /\ HasEv("idf")
   /\ IF ~IdfOk THEN Reject("idf # documented formula")
      ELSE /\ seen' = seen \cup {"idf:" \o Ev.method}
-          /\ Adv /\ UNCHANGED <<cvoc, tvoc, tmeth, nfit, used>>
+          /\ Adv /\ UNCHANGED <<cvoc, cset, tvoc, tset, tmeth, ctag, ttag, nfit, used>>
 
+\* observations a complete case must contain
+ExpVec ==
+  {"fit:count:s2:train", "count:s2:train", "count:s2:test"}
+  \cup UNION {{"fit:" \o In.methods[q] \o ":s2:train", "tfidf:" \o In.methods[q] \o ":s2:train", "tfidf:" \o In.methods[q] \o ":s2:test"} :
+                q \in 1..Len(In.methods)}
+ExpHist ==
+  LET fitp == IF In.api = "count" THEN "fit:count" ELSE "fit:smooth"
+      trp  == IF In.api = "count" THEN "count" ELSE "tfidf:smooth" IN
+  (IF In.first = "check_ref" THEN {"check"} ELSE {fitp \o ":s1:train1", trp \o ":s1:train1"})
+  \cup {fitp \o ":s2:train", trp \o ":s2:train", trp \o ":s2:test"}
+  \cup (IF In.via = "clone" THEN {fitp \o ":s1:train", trp \o ":s1:test"} ELSE {})
 Expected ==
   IF Case.kind = "idf" THEN {"idf:" \o m : m \in Methods}
-  ELSE {"fit:count", "count:train", "count:test"}
-       \cup UNION {{"fit:" \o In.methods[q], "tfidf:" \o In.methods[q] \o ":train", "tfidf:" \o In.methods[q] \o ":test"} :
-                     q \in 1..Len(In.methods)}
+  ELSE IF IsHist THEN ExpHist
+  ELSE ExpVec
 
 \* the harness closes every case with "end": every expected observation must have been made and explained
 TEnd ==
   /\ HasEv("end")
   /\ IF seen # Expected THEN Reject("observations missing")
-     ELSE Adv /\ UNCHANGED <<cvoc, tvoc, tmeth, nfit, seen, used>>
+     ELSE Adv /\ UNCHANGED <<cvoc, cset, tvoc, tset, tmeth, ctag, ttag, nfit, seen, used>>
 
 \* anything else (a panic of the code under test, an unknown event) is not explained by the specification
 TOther ==
   /\ e <= Len(Case.ev)
-  /\ Ev.ev \notin {"fit", "count", "tfidf", "idf", "end"}
+  /\ Ev.ev \notin {"fit", "count", "tfidf", "idf", "check", "end"}
   /\ Reject("event not explained by any action")
 
 Accept ==
   /\ e = Len(Case.ev) + 1
   /\ Len(Case.ev) > 0 /\ Case.ev[Len(Case.ev)].ev = "end"
   /\ IF used = {} THEN Ok(Case.id) ELSE OkDev(Case.id, SomeOrder(used))
-  /\ e' = e + 1 /\ UNCHANGED <<c, vars, cvoc, tvoc, tmeth, nfit, seen, used>>
+  /\ e' = e + 1 /\ UNCHANGED <<c, vars, cvoc, cset, tvoc, tset, tmeth, ctag, ttag, nfit, seen, used>>
 
-TraceNext == TFitCount \/ TCount \/ TFitTfidf \/ TTfidf \/ TIdf \/ TEnd \/ TOther \/ Accept
+TraceNext == TFitCount \/ TCount \/ TFitTfidf \/ TTfidf \/ TCheck \/ TIdf \/ TEnd \/ TOther \/ Accept
 =============================================================================
